@@ -24,6 +24,8 @@ pub const FAULTS: &[&str] = &[
     "rock x with", "rock x like", "roll x into", "say roll", "put x at into y", "say -",
     // (a') the last element of a list is missing after its separator word
     "rock x with 4, 5, and", "let x be with 1, 2, and", "say 1 plus 2, and", "fun taking 1, and", "say fun taking 1, 2 &", "rock x with 1 &", "rock x with 1, 2 'n'", "fun takes k and", "fun takes k, and", "say 1 plus 2, and\nsay 3",
+    // (d3) a keyword glued to a digit or underscore: one invalid word, not a keyword and a number
+    "say1", "shout5", "put1 into x", "let x be1", "say x plus1", "say x at0", "rock x with1", "give back1", "say not1", "say 1 and2", "cast x with16", "say_1", "put 1 into_x", "say x is1",
     // (a3) a poetic literal made of separators only
     "x is ,", "x was, ,", "rock x like ,", "x's,", "x is .", "x is . ,",
     // (a'') a poetic literal that ends in a free-standing hyphen
